@@ -66,6 +66,8 @@ type Env struct {
 	unixDone chan error
 	unixPath string
 	closed   bool
+	pool     *Pool
+	poolKey  string
 	// Quiescent: the transport was torn down and the server side is known
 	// to have finished (every hook invocation that will ever happen has).
 	Quiescent bool
@@ -81,16 +83,83 @@ var sockSeq atomic.Int64
 // includes a state token whose compressed length varies with its nonce.
 var capSizes = regexp.MustCompile(`\(\d+ > \d+\)`)
 
-// NewEnv builds a server for the transport. install (optional) may configure
-// the server and returns the hook the recorder wraps (nil: recorder alone).
-func NewEnv(transport string, cfg Cfg, install func(*vgirpc.Server) vgirpc.DispatchHook) (*Env, error) {
-	e := &Env{Transport: transport, Cfg: cfg}
+// Pool keeps servers alive across the histories of ONE worker goroutine
+// (keyed by transport family and configuration): building a Server means
+// registering ~20 methods and hashing the describe payload, which dominates a
+// short history under the race detector. A pooled server is used by one
+// history at a time and only after the previous one reached quiescence; every
+// history still gets a fresh recorder (and, for C43, a freshly installed hook).
+type Pool struct {
+	servers map[string]*pooled
+}
+
+type pooled struct {
+	s  *vgirpc.Server
+	hs *vgirpc.HttpServer
+}
+
+// NewPool returns an empty pool.
+func NewPool() *Pool { return &Pool{servers: map[string]*pooled{}} }
+
+// Close stops what the pooled servers keep running (sticky-session reapers).
+func (p *Pool) Close() {
+	for k, ps := range p.servers {
+		if ps.hs != nil {
+			if dh := ps.hs.DrainHandle(); dh != nil {
+				dh.Shutdown()
+			}
+		}
+		delete(p.servers, k)
+	}
+}
+
+func buildServer(transport string, cfg Cfg) *pooled {
 	s := svc.NewServer(false)
 	RegisterExtras(s)
 	s.SetServerID("wm-server")
 	if cfg.ProtoSet {
 		s.SetProtocolVersion(ServerProto)
 	}
+	ps := &pooled{s: s}
+	if IsHTTP(transport) {
+		ps.hs = vgirpc.NewHttpServer(s)
+		ps.hs.SetProducerBatchLimit(cfg.BatchLimit)
+		ps.hs.SetMaxResponseBytes(MaxResp)
+		if cfg.Sticky {
+			ps.hs.EnableSticky(5 * time.Minute)
+		}
+	}
+	return ps
+}
+
+// NewEnv is Pool.NewEnv without a pool: a fresh server, torn down by Close.
+func NewEnv(transport string, cfg Cfg, install func(*vgirpc.Server) vgirpc.DispatchHook) (*Env, error) {
+	return (*Pool)(nil).NewEnv(transport, cfg, install)
+}
+
+// NewEnv builds (or reuses) a server for the transport. install (optional) may
+// configure the server and returns the hook the recorder wraps (nil: recorder alone).
+func (p *Pool) NewEnv(transport string, cfg Cfg, install func(*vgirpc.Server) vgirpc.DispatchHook) (*Env, error) {
+	e := &Env{Transport: transport, Cfg: cfg, pool: p}
+	fam := transport
+	if IsHTTP(transport) {
+		fam = "http"
+	} else {
+		cfg.BatchLimit, cfg.Sticky = 0, false // HTTP-only settings
+	}
+	e.poolKey = fmt.Sprintf("%s/%+v", fam, cfg)
+	var ps *pooled
+	if p != nil {
+		ps = p.servers[e.poolKey]
+	}
+	if ps == nil {
+		ps = buildServer(transport, cfg)
+		if p != nil {
+			p.servers[e.poolKey] = ps
+		}
+	}
+	s := ps.s
+	s.SetDispatchHook(nil)
 	var inner vgirpc.DispatchHook
 	if install != nil {
 		inner = install(s)
@@ -126,12 +195,7 @@ func NewEnv(transport string, cfg Cfg, install func(*vgirpc.Server) vgirpc.Dispa
 		}
 		e.conn = c
 	case "http", "http-net":
-		e.hs = vgirpc.NewHttpServer(s)
-		e.hs.SetProducerBatchLimit(cfg.BatchLimit)
-		e.hs.SetMaxResponseBytes(MaxResp)
-		if cfg.Sticky {
-			e.hs.EnableSticky(5 * time.Minute)
-		}
+		e.hs = ps.hs
 		if transport == "http" {
 			e.ht = &wire.HTTPTarget{Handler: e.hs}
 		} else {
@@ -179,6 +243,14 @@ func (e *Env) Close() {
 	case "http-net":
 		e.ts.Close() // blocks until outstanding requests have completed
 		e.Quiescent = true
+	}
+	switch {
+	case e.pool != nil && (!e.Quiescent || e.ServePanic != ""):
+		delete(e.pool.servers, e.poolKey) // never reuse a server that may still be running something
+	case e.pool == nil && e.hs != nil:
+		if dh := e.hs.DrainHandle(); dh != nil {
+			dh.Shutdown()
+		}
 	}
 }
 
